@@ -29,11 +29,24 @@ FAULTS: Dict[str, Any] = {}  # injected faults, keyed by step uuid string -> kin
 GATES: Dict[str, Any] = {}
 
 
+UPLOAD_FAULT: Dict[str, Any] = {}  # {"armed": True}: every upload to the flight store raises (inherited by forked workers)
+
+
 def install_step_observers() -> None:
     global _installed
     if _installed:
         return
     _installed = True
+    from mloda.core.runtime.flight.flight_server import FlightServer as _FS
+
+    _orig_upload = _FS.upload_table
+
+    def _upload(location: str, table: Any, table_key: str) -> None:
+        if UPLOAD_FAULT.get("armed"):
+            raise RuntimeError("VERIF-FAULT upload")
+        return _orig_upload(location, table, table_key)
+
+    _FS.upload_table = staticmethod(_upload)  # type: ignore[method-assign]
     for cls in (FeatureGroupStep, TransformFrameworkStep, JoinStep):
         orig = cls.execute
 
@@ -155,6 +168,39 @@ def gen_spec(rng: Any, max_feats: int = 8, frameworks: Sequence[str] = ("pa",), 
     return {"roots": [root], "groups": groups, "request": request}
 
 
+def gen_chain_spec(rng: Any, frameworks: Sequence[str] = ("pa", "pd", "py"), extra: bool = True) -> Dict[str, Any]:
+    """A linear multi-framework chain: root on fw0, then one single-feature group per link of the chain, each depending on
+    the previous feature; every framework is used by at most one contiguous stretch of the chain (no A -> B -> A, never two
+    transform steps to the same framework) - the shapes for which the unchanged planner hands every consumer the right
+    compute-framework object.  With `extra`, groups on the same framework as their parent are inserted (no transform)."""
+    uid = F.uniq("")
+    nrows = rng.randint(1, 4)
+    fws = list(frameworks)
+    rng.shuffle(fws)
+    fws = fws[: rng.randint(2, len(fws))]
+    root = {"name": f"R{uid}", "cols": {f"r{uid}_{i}": [rng.randint(-5, 9) for _ in range(nrows)] for i in range(rng.randint(1, 2))}, "fw": fws[0]}
+    groups = []
+    prev = rng.choice(list(root["cols"]))
+    k = 0
+    for fw in fws:
+        reps = rng.randint(1, 2) if extra else 1
+        if fw == fws[0]:
+            reps = rng.randint(0, 1) if extra else 0
+        for _ in range(reps):
+            f = f"d{uid}_{k}"
+            expr: Any = ["col", prev]
+            if rng.random() < 0.7:
+                expr = [rng.choice(["add", "mul", "sub"]), expr, ["const", rng.randint(1, 3)]]
+            groups.append({"name": f"G{uid}_{k}", "fw": fw, "features": {f: {"parents": [prev], "expr": expr}}})
+            prev = f
+            k += 1
+    derived = [f for g in groups for f in g["features"]]
+    req = [derived[-1]] + [x for x in derived[:-1] if rng.random() < 0.3]
+    if rng.random() < 0.3:
+        req.append(rng.choice(list(root["cols"])))
+    return {"roots": [root], "groups": groups, "request": [{"name": n, "options": {}} for n in req]}
+
+
 def build_classes(spec: Dict[str, Any], hooks: Optional[Dict[str, Any]] = None) -> Dict[str, Any]:
     classes: Dict[str, Any] = {}
     for r in spec["roots"]:
@@ -165,7 +211,30 @@ def build_classes(spec: Dict[str, Any], hooks: Optional[Dict[str, Any]] = None) 
 
 
 def features_of(spec: Dict[str, Any]) -> List[Any]:
-    return [Feature(r["name"], options=dict(r["options"])) if r["options"] else Feature(r["name"]) for r in spec["request"]]
+    from mloda.core.abstract_plugins.components.data_types import DataType
+
+    out = []
+    for r in spec["request"]:
+        kw: Dict[str, Any] = {}
+        if r.get("options"):
+            kw["options"] = dict(r["options"])
+        if r.get("dtype"):
+            kw["data_type"] = DataType[r["dtype"]]
+        out.append(Feature(r["name"], **kw))
+    return out
+
+
+def add_declared_types(rng: Any, spec: Dict[str, Any]) -> None:
+    """Declare numeric types (all compatible with the produced integer columns under the lenient table) on some requested
+    features and request further columns of the same group with other declared types and without one."""
+    names = {r["name"] for r in spec["request"]}
+    root = spec["roots"][0]
+    for c in root["cols"]:
+        if c not in names and rng.random() < 0.8:
+            spec["request"].append({"name": c, "options": {}})
+    for r in spec["request"]:
+        if not r["options"]:
+            r["dtype"] = rng.choice([None, "INT64", "INT32", "DOUBLE"])
 
 
 def frameworks_of(spec: Dict[str, Any]) -> Set[Any]:
@@ -407,7 +476,7 @@ def guarded(fn: Any, timeout: float) -> Tuple[bool, Any]:
     return True, box.get("r")
 
 
-FLAKES = {"hangs_retried": 0}
+FLAKES: Dict[str, Any] = {"hangs_retried": 0, "stacks": []}
 
 
 def run_session(session: Any, mode: str, api_data: Any = None, extenders: Any = None, stream: bool = False, consume: Optional[int] = None, timeout: float = 60.0,
@@ -467,6 +536,28 @@ def _run_session_once(session: Any, mode: str, api_data: Any, extenders: Any, st
     rr.wall = time.time() - t0
     if th.is_alive():
         rr.timed_out = True
+        try:  # where does the run thread hang?  (kept in the evidence for diagnosis)
+            import sys as _sys
+            import traceback as _tb
+
+            fr = _sys._current_frames().get(th.ident)
+            if fr is not None and len(FLAKES["stacks"]) < 5:
+                import multiprocessing as _mp
+
+                kids = []
+                for ch in _mp.active_children():
+                    try:
+                        wchan = open(f"/proc/{ch.pid}/wchan").read().strip()
+                        state = [l for l in open(f"/proc/{ch.pid}/status").read().splitlines() if l.startswith("State")][0]
+                        nthreads = len(os.listdir(f"/proc/{ch.pid}/task"))
+                        kids.append({"name": ch.name, "wchan": wchan, "state": state, "threads": nthreads})
+                    except Exception:
+                        pass
+                FLAKES["stacks"].append({"mode": mode, "stream": stream, "children": kids,
+                                         "features": sorted(str(f.name) for f in getattr(session, "features", []))[:8],
+                                         "stack": [f"{f.filename.split('/')[-1]}:{f.lineno}:{f.name}" for f in _tb.extract_stack(fr)][-4:]})
+        except Exception:
+            pass
     rr.results = box.get("results")
     rr.yielded = box.get("yielded", [])
     rr.error = box.get("error")
@@ -504,6 +595,21 @@ def overlap_on_shared_fw(exp: Dict[str, Any], events: List[Dict[str, Any]]) -> b
             open_.add(i)
         else:
             open_.discard(i)
+    return False
+
+
+def mp_unuploaded_tfs_source(exp: Dict[str, Any]) -> bool:
+    """Input class of a known MULTIPROCESSING defect: a transform step reads (downloads) the data of a producer step that the
+    planner did not mark `need_to_upload` - the mark is keyed by the producer FeatureSet's arbitrary representative
+    (`features.any_uuid`), so with several features in the producer step it is missed whenever the consumer's parent is not
+    that representative."""
+    prod = {u: st for st in exp["steps"] if st["kind"] == "fg" for u in st["outs"]}
+    for st in exp["steps"]:
+        if st["kind"] == "tfs":
+            for r in st["req"]:
+                p_ = prod.get(r)
+                if p_ is not None and not p_.get("need_to_upload"):
+                    return True
     return False
 
 
@@ -579,4 +685,33 @@ def build_link_request(spec: Dict[str, Any], hooks: Optional[Dict[str, Any]] = N
 
 def prepare_link(spec: Dict[str, Any], hooks: Optional[Dict[str, Any]] = None, extra_fn: Any = None) -> Any:
     classes, links, feats, fws = build_link_request(spec, hooks, extra_fn)
+    return mloda.prepare(list(feats), compute_frameworks=fws, links=links, plugin_collector=F.collector(set(classes.values())))
+
+
+def gen_units_spec(rng: Any, nunits: int = 2, frameworks: Sequence[str] = ("pa", "pd")) -> Dict[str, Any]:
+    """Several independent join units (two sources, one link, one consumer each) requested together."""
+    units = []
+    for _ in range(nunits):
+        u = gen_link_spec(rng, frameworks=frameworks, nsrc=2, jointypes=("inner", "left", "outer"))
+        # make the unit cross-framework with the consumer on the left source's framework (the shape that works on the unchanged tree)
+        fa, fb = rng.sample(list(frameworks), 2) if len(frameworks) >= 2 else (frameworks[0], frameworks[0])
+        l = u["links"][0]
+        u["sources"][l["left"]]["fw"] = fa
+        u["sources"][l["right"]]["fw"] = fb
+        u["consumer"]["fw"] = fa
+        units.append(u)
+    return {"units": units}
+
+
+def prepare_units(spec: Dict[str, Any], hooks: Optional[Dict[str, Any]] = None) -> Any:
+    classes: Dict[str, Any] = {}
+    links: Set[Any] = set()
+    feats: List[Any] = []
+    fws: Set[Any] = set()
+    for u in spec["units"]:
+        c, l, f, w = build_link_request(u, hooks)
+        classes.update(c)
+        links |= l
+        feats += f
+        fws |= w
     return mloda.prepare(list(feats), compute_frameworks=fws, links=links, plugin_collector=F.collector(set(classes.values())))
